@@ -34,6 +34,27 @@ def Sys.init : Sys := { catalog := newCatalog }
 def Sys.commit (s : Sys) (t : Txn) (nu : Nu) : Sys :=
   { catalog := if t.dirty then t.catalog else s.catalog, nextId := nu.nextId }
 
+/-- the oplog retention settings of the engine (`Options.{Min,Max}OplogSize`, `{Min,Max}OplogAge` after
+    CreateEngine's defaulting; ages in whole seconds as `Clean` uses them, `minAgeZero` = `MinOplogAge == 0`,
+    which the defaulting excludes for engines built by CreateEngine) -/
+structure CleanCfg where
+  minSize : Int := 100
+  maxSize : Int := 1000
+  minAgeS : Nat := 300
+  maxAgeS : Nat := 3600
+  minAgeZero : Bool := false
+deriving Inhabited
+
+/-- Engine.Commit in the sequential setting, INCLUDING retention: a dirty transaction is cleaned
+    (`txn.Clean(opts…)` with `bsonkit.Now() = (nowT, nowI)`) and its catalog published; a transaction
+    that is not dirty publishes nothing. `Sys.commit` is the special case without retention, which
+    coincides with this one as long as the log is not longer than `minSize`
+    (`C08.commit_eq_commitWith_when_small`). -/
+def Sys.commitWith (cfg : CleanCfg) (nowT nowI : Nat) (s : Sys) (t : Txn) (nu : Nu) : Sys :=
+  { catalog := if t.dirty then
+      (t.clean cfg.minSize cfg.maxSize cfg.minAgeS cfg.maxAgeS cfg.minAgeZero nowT nowI).catalog else s.catalog,
+    nextId := nu.nextId }
+
 def projList (sch : SchemaEval) (proj : Option Doc) (ds : List Doc) : Res (List Doc) :=
   match proj with
   | none => .ok ds
